@@ -47,6 +47,26 @@ theorem absorb_is_stream (w : Nat) (hw : 1 ≤ w) (ks js : List K) :
     rw [count_expand]
     exact wsum_items k _ (inv_reach w hw js).nodup
 
+/-- the constructor on an exact threshold `p/q` in (0, 1): the bucket width is `⌊1/threshold⌋`
+    (`w·p ≤ q < (w+1)·p`), at least 1 - the hypothesis `1 ≤ w` of every theorem below - and
+    `2·w ≤ 2/threshold`; thresholds outside (0, 1) are rejected -/
+theorem threshold_width (p q : Nat) :
+    match (TC.ofThreshold p q : Option (TC K)) with
+    | some s => 0 < p ∧ p < q ∧ s = TC.init (q / p) ∧ 1 ≤ s.w ∧ s.w * p ≤ q ∧ q < (s.w + 1) * p
+    | none => p = 0 ∨ q ≤ p := by
+  unfold TC.ofThreshold
+  by_cases h : 0 < p ∧ p < q
+  · rw [if_pos h]
+    have h1 : 1 ≤ q / p := (Nat.le_div_iff_mul_le h.1).mpr (by omega)
+    have h2 : q / p * p ≤ q := Nat.div_mul_le_self q p
+    have h3 : q < (q / p + 1) * p := by
+      have := Nat.lt_mul_div_succ q h.1
+      rw [Nat.mul_comm]; exact this
+    exact ⟨h.1, h.2, rfl, h1, h2, h3⟩
+  · rw [if_neg h]
+    show p = 0 ∨ q ≤ p
+    omega
+
 /-- `total` equals the number of additions -/
 theorem total_eq_additions (w : Nat) (ks : List K) : (reach w ks).total = ks.length := by
   simp [reach, addAll_total, TC.init]
@@ -219,6 +239,11 @@ def sizeWitness : List Nat :=
 theorem size_bound_false : ∃ (w : Nat) (ks : List Nat), 1 ≤ w ∧ 2 * w < (reach w ks).len :=
   ⟨24, sizeWitness, by decide, by decide +kernel⟩
 
+/-- the same in terms of the threshold `p/q = 1/24`: `len · p > 2 · q`, i.e. `len > 2/threshold` -/
+theorem size_bound_false_threshold : ∃ (p q : Nat) (s : TC Nat) (ks : List Nat),
+    TC.ofThreshold p q = some s ∧ 2 * q < (s.addAll ks).len * p :=
+  ⟨1, 24, TC.init 24, sizeWitness, rfl, by decide +kernel⟩
+
 /-- what does hold: never more tracked keys than additions, and the tracked
     counts never add up to more than the additions -/
 theorem size_bound_partial (w : Nat) (hw : 1 ≤ w) (ks : List K) :
@@ -267,6 +292,10 @@ example : (reach 3 [0, 1]).len = 2 ∧ 3 * (([0, 1].length / 3 + 1).log2 + 1) = 
 example : ((reach 3 [0, 1, 1, 0, 2, 2, 0]).uncommonCount, culled (TC.init 3 : TC Nat) [0, 1, 1, 0, 2, 2, 0],
            (reach 3 [0, 1, 1, 0, 2, 2, 0]).commonality) = (4, 4, some (3, 7)) := by decide
 example : (reach 3 ([] : List Nat)).commonality = none := by decide
+-- thresholds 3/10 and 0.34 = 17/50 have width 3 and 2; 1/1 and 0/5 are rejected
+example : ((TC.ofThreshold 3 10 : Option (TC Nat)).map (·.w), (TC.ofThreshold 17 50 : Option (TC Nat)).map (·.w),
+           (TC.ofThreshold 1 1 : Option (TC Nat)).map (·.w), (TC.ofThreshold 0 5 : Option (TC Nat)).map (·.w))
+    = (some 3, some 2, none, none) := by decide
 -- per-key shortfalls of that stream over U = [0, 1, 2, 3]: (3-1) + (2-0) + (2-2) + 0 = 4
 example : ([0, 1, 2, 3].map fun k => [0, 1, 1, 0, 2, 2, 0].count k - (reach 3 [0, 1, 1, 0, 2, 2, 0]).get k)
     = [2, 2, 0, 0] := by decide
